@@ -327,9 +327,9 @@ def decodeLoop (app : App) (ctx : Model.Context) (cycle : Int) :
         -- `ctx.SequenceID(pc) = pc + ctx.sequenceID*1000`
         let outBus := outBus.add { instr := i, pc := pc, seq := pc + ctx.sequenceID * 1000#32 } cycle
         if jump then pure (du, inBus, outBus)
-        else
-          let du := if i.instructionType == Gen.InstructionType.Ret then { du with ret := true } else du
-          decodeLoop app ctx cycle n du inBus outBus
+        -- since /repo's fix of R60-defect-2: nothing behind a `ret` is decoded, not even in this cycle
+        else if i.instructionType == Gen.InstructionType.Ret then pure ({ du with ret := true }, inBus, outBus)
+        else decodeLoop app ctx cycle n du inBus outBus
 
 /-- `decodeUnit.cycle(cycle, app, ctx)` -/
 def decodeCore (app : App) (ctx : Model.Context) (cycle : Int) (du : DecodeUnit) (inBus : BufferedBus Word)
